@@ -36,6 +36,11 @@ def make_body(n: int, content: str, seed: int):
     if content == "random":
         return hashlib.shake_256(seed.to_bytes(8, "big")).digest(n)
     # multi-byte text, cut to n bytes on a character boundary then padded with ASCII
+    if content == "crlf":
+        unit = "line\r\nwith CR\rand é\n"
+        s = unit * (n // len(unit.encode()) + 1)
+        out = s.encode()[:n].decode("utf-8", "ignore").encode()
+        return out + b"." * (n - len(out))
     unit = "aé日😀\n"
     ub = unit.encode()
     s = (unit * (n // len(ub) + 1))
@@ -161,7 +166,7 @@ def _static_root():
 def static_case_st():
     return st.fixed_dictionaries({
         "n": length_st(600_000),
-        "content": st.sampled_from(["pattern", "text"]),
+        "content": st.sampled_from(["pattern", "text", "crlf"]),
         "stall": st.sampled_from([0, 1, 8, 20, 28]),           # virtual seconds the reader stalls before draining
         "backend": st.sampled_from(["stdlib", "pyopenssl"]),
         "tls": st.sampled_from(["1.3", "1.2"]),
